@@ -67,9 +67,18 @@ from pydra.utils.general import attrs_values
 home = os.path.join(work, "ms")
 os.makedirs(os.path.join(home, "libexec"))
 lmod = os.path.join(home, "libexec", "lmod")
-with open(lmod, "w") as f:
-    f.write('#!/bin/sh\nd=${0%/libexec/lmod}\nfor a in "$@"; do printf \'%s\\n\' "$a"; done > "$d/args.txt"\nexec /bin/cat "$d/out.txt"\n')
-os.chmod(lmod, 0o755)
+
+
+def write_lmod(text):
+    # the simulated lmod: one /bin/sh process, builtins only; logs its arguments, prints the program
+    body = text.replace("'", "'\\''")
+    with open(lmod + ".tmp", "w", encoding="utf-8") as f:
+        f.write("#!/bin/sh\nd=${0%/libexec/lmod}\nfor a in \"$@\"; do printf '%s\\n' \"$a\"; done > \"$d/args.txt\"\n"
+                "printf '%s' '" + body + "'\n")
+    os.chmod(lmod + ".tmp", 0o755)
+    os.replace(lmod + ".tmp", lmod)
+
+
 dump = os.path.join(work, "dump.sh")
 with open(dump, "w") as f:
     f.write('#!/bin/sh\n/bin/cat /proc/$$/environ\nprintf \'\\0ARGV\\0\'\nfor a in "$@"; do printf \'%s\\0\' "$a"; done\n')
@@ -90,6 +99,7 @@ def parse(stdout):
 
 
 results = []
+native_memo = {}
 for c in cases:
     res = {}
     try:
@@ -97,8 +107,7 @@ for c in cases:
         job = Job(task=task, submitter=sub, name="c39")
         native_argv = task._command_args(values=job.inputs)
         res["native_argv"] = [str(a) for a in native_argv]
-        with open(os.path.join(home, "out.txt"), "wb") as f:
-            f.write(c["text"].encode("utf-8"))
+        write_lmod(c["text"])
         if os.path.exists(os.path.join(home, "args.txt")):
             os.unlink(os.path.join(home, "args.txt"))
         caller = [[k, (home if v == "@HOME@" else v)] for k, v in c["caller"]]
@@ -114,9 +123,13 @@ for c in cases:
                 out = Lmod(c["modules"]).execute(job)
             env, args = parse(out["stdout"])
             res["kind"] = "ran"; res["env"] = env; res["child_args"] = args; res["rc"] = out["return_code"]
-            nat = native.Environment().execute(job)
-            nenv, nargs = parse(nat["stdout"])
-            res["native_env"] = nenv; res["native_child_args"] = nargs
+            key = tuple(c["args"])
+            if key not in native_memo or c.get("native_env_check"):
+                nat = native.Environment().execute(job)
+                nenv, nargs = parse(nat["stdout"])
+                native_memo[key] = nargs
+                res["native_env"] = nenv
+            res["native_child_args"] = native_memo[key]
         except RuntimeError as e:
             m = str(e)
             res["kind"] = ("no_lmod" if "Could not find Lmod installation" in m else
@@ -305,8 +318,8 @@ def run_worker(cases):
 
 def build_cases(ctx):
     rng = ctx.rng
-    n_struct = ctx.budget(260, 3000)
-    n_raw = ctx.budget(120, 1500)
+    n_struct = ctx.budget(160, 2400)
+    n_raw = ctx.budget(80, 1200)
     n_err = ctx.budget(12, 60)
     cases = []
     for c in ctx.corpus():
@@ -317,7 +330,7 @@ def build_cases(ctx):
         cases.append(dict(stream="structured", caller=caller, stmts=stmts, text=render(stmts),
                           args=[rng.choice(["a", "b c", "-x", "é", "it's", "--k=v"]) for _ in range(rng.randrange(0, 4))],
                           modules=rng.choice([["m/1.0"], ["a", "b/2"], ["gcc/12", "fsl/6.0.7", "x"]]),
-                          end_to_end=(i % 40 == 7)))
+                          end_to_end=(i % 40 == 7), native_env_check=(i % 10 == 3)))
     for i in range(n_raw):
         caller = gen_caller(rng)
         text = "".join(rng.choice(RAW) for _ in range(rng.randrange(1, 16)))
@@ -360,7 +373,7 @@ def run(ctx):
         if res.get("lmod_args") is not None and res["lmod_args"] != ["python", "load"] + case["modules"]:
             problems.append("lmod invoked with %r" % res["lmod_args"])
         if res["kind"] == "ran":
-            if res["native_env"] != res["caller"]:
+            if "native_env" in res and res["native_env"] != res["caller"]:
                 problems.append("native child environment differs from os.environ (observation broken)")
             if res["native_child_args"] != res["child_args"] or res["child_args"] != res["native_argv"][1:]:
                 problems.append("argv differs from the native environment's: %r vs %r" % (res["child_args"], res["native_child_args"]))
@@ -392,18 +405,18 @@ def run(ctx):
     out.distribution = dist
     out.samples = [{"caller": r["caller"][:4], "lmod_output": c["text"], "child_env": r.get("env", r["kind"]) if r["kind"] != "ran" else r["env"][:6],
                     "child_args": r.get("child_args")} for c, r in keep[:3]]
-    for kind in ("spec", "tie"):
-        for i in res_idx[kind][:25]:
-            case, res = keep[i]
-            exp = model_and_spec(ctx, case, res, "x%s%d" % (kind, i))
-            finding = "F39b" if (kind == "spec" and nonplain(case)) else None
-            out.failures.append(Failure(
-                case=strip(case), observed={"kind": res["kind"], "child_env": res.get("env"), "child_args": res.get("child_args"),
-                                            "caller": res["caller"]},
-                expected=exp, kind=kind, finding=finding,
-                note=("value containing a quote or backslash is not read back" if finding else
-                      "child environment = caller overridden by the module assignments; argv native" if kind == "spec"
-                      else "model/impl")))
+    todo = [(kind, i) for kind in ("spec", "tie") for i in res_idx[kind][:25]]
+    exps = model_and_spec(ctx, [keep[i] for _, i in todo], "fails") if todo else []
+    for (kind, i), exp in zip(todo, exps):
+        case, res = keep[i]
+        finding = "F39b" if (kind == "spec" and nonplain(case)) else None
+        out.failures.append(Failure(
+            case=strip(case), observed={"kind": res["kind"], "child_env": res.get("env"), "child_args": res.get("child_args"),
+                                        "caller": res["caller"]},
+            expected=exp, kind=kind, finding=finding,
+            note=("value containing a quote or backslash is not read back" if finding else
+                  "child environment = caller overridden by the module assignments; argv native" if kind == "spec"
+                  else "model/impl")))
     return out
 
 
@@ -411,15 +424,19 @@ def strip(case):
     return {k: case[k] for k in ("stream", "caller", "stmts", "text", "args", "modules") if k in case}
 
 
-def model_and_spec(ctx, case, res, name):
-    terms = ["execute %s %s %s" % (enc_env(res["caller"]), coqio.string(case["text"]),
-                                   coqio.lst([coqio.string(a) for a in res["native_argv"]]))]
-    if case.get("stmts") is not None:
-        keys = sorted({k for k, _ in res["caller"]} | {st[2] for st in case["stmts"] if st[0] == "assign"})
-        terms.append("map (fun k => (k, spec_lookup %s %s k)) %s" % (enc_env(res["caller"]), enc_stmts(case["stmts"]),
+def model_and_spec(ctx, pairs, name):
+    """One coqc run printing, for every (case, result), the model's outcome and the spec's value of each variable."""
+    terms = []
+    for case, res in pairs:
+        terms.append("execute %s %s %s" % (enc_env(res["caller"]), coqio.string(case["text"]),
+                                           coqio.lst([coqio.string(a) for a in res["native_argv"]])))
+        stm = case.get("stmts") or []
+        keys = sorted({k for k, _ in res["caller"]} | {st[2] for st in stm if st[0] == "assign"})
+        terms.append("map (fun k => (k, spec_lookup %s %s k)) %s" % (enc_env(res["caller"]), enc_stmts(stm),
                                                                        coqio.lst([coqio.string(k) for k in keys])))
     vals = coqio.eval_terms(ctx.scratch, name, IMPORTS, terms)
-    return {"model": vals[0], "spec_lookup": vals[1] if len(vals) > 1 else None}
+    return [{"model": vals[2 * j], "spec_lookup": vals[2 * j + 1] if pairs[j][0].get("stmts") is not None else None}
+            for j in range(len(pairs))]
 
 
 def replay(ctx, payload):
@@ -429,6 +446,6 @@ def replay(ctx, payload):
     res = results[0]
     print("implementation:", json.dumps({k: res.get(k) for k in ("kind", "env", "child_args", "native_argv", "msg")}, ensure_ascii=False))
     if "caller" in res and "native_argv" in res:
-        exp = model_and_spec(ctx, case, res, "replay")
+        exp = model_and_spec(ctx, [(case, res)], "replay")[0]
         print("model:", exp["model"])
         print("spec :", exp["spec_lookup"])
